@@ -145,18 +145,26 @@ def run_case(spec):
     cur = None
     reported = []      # per test: dict(test, kind, info, tags_at_outcome, tags_at_stop, start, out_time, stop)
     fallback = False
+    tbt_models = [H.TagModel() for _ in tbts]      # the reporter's tags plus what Taggers on the path add per test
+    tbt_seen = [[] for _ in tbts]                  # per test: (tags at outcome, tags at stopTest)
+
+    def each_model(fn):
+        for m in tbt_models:
+            fn(m)
     for n, op in enumerate(spec["history"]["ops"]):
         k = op["op"]
         try:
             if k == "startTestRun":
                 r.startTestRun()
                 tags.start_run()
+                each_model(lambda m: m.start_run())
                 now = None
             elif k == "stopTestRun":
                 r.stopTestRun()
             elif k == "tags":
                 r.tags(set(op["new"]), set(op["gone"]))
                 tags.change(op["new"], op["gone"])
+                each_model(lambda m: m.change(op["new"], op["gone"]))
             elif k == "time":
                 now = H.ts(op["t"])
                 r.time(now)
@@ -164,6 +172,11 @@ def run_case(spec):
                 cur = H.make_test(op["i"], op["tk"])
                 r.startTest(cur)
                 tags.start_test()
+                for (r_, calls_, path_), m in zip(tbts, tbt_models):
+                    m.start_test()
+                    for step in reversed(path_):       # the innermost Tagger tags first
+                        if isinstance(step, tuple):
+                            m.change(step[1], step[2])
                 reported.append({"test": cur, "start": now})
             elif k == "outcome":
                 e = reported[-1]
@@ -172,12 +185,15 @@ def run_case(spec):
                 e["tags_at_outcome"] = frozenset(tags.current)
                 e["out_time"] = now
                 e["payload"] = op["payload"]
+                e["tbt_out"] = [frozenset(m.current) for m in tbt_models]
                 e["info"] = H.outcome_call(r, cur, op)
             elif k == "stopTest":
                 reported[-1]["tags_at_stop"] = frozenset(tags.current)
                 reported[-1]["stop"] = now
+                reported[-1]["tbt_stop"] = [frozenset(m.current) for m in tbt_models]
                 r.stopTest(cur)
                 tags.stop_test()
+                each_model(lambda m: m.stop_test())
             elif k in ("stop", "done", "progress"):
                 # control calls are part of the histories (they must not disturb delivery) but the
                 # statement does not promise that every adapter implements them
@@ -308,17 +324,11 @@ def run_case(spec):
                 vs.append(V("test-by-test", "stop-time", "stop_time %r, time() at stopTest was %r" % (c["stop_time"], e["stop"])))
             if c["start_time"] is None or c["stop_time"] is None:
                 vs.append(V("test-by-test", "time-none", "start/stop time missing"))
-            # tags: reporter's tags at stopTest, plus what Taggers on the path add per test
-            base = e["tags_at_outcome"] if under_tsfr else e["tags_at_stop"]
-            want_tags = set(base)
-            for step in path:
-                if isinstance(step, tuple):
-                    want_tags |= set(step[1])
-                    want_tags -= set(step[2])
-            # a Tagger tags at startTest; a later reporter change can undo it, so only require equality when no overlap
-            overlap = any(isinstance(s, tuple) and (set(s[1]) | set(s[2])) & set(H.TAGS) for s in path) and \
-                any(o["op"] == "tags" for o in spec["history"]["ops"])
-            if not overlap and set(c["tags"]) != want_tags:
+            # tags: the reporter's tags at stopTest after the per-test changes of the Taggers on the path
+            idx = [x[0] for x in tbts].index(r_)
+            want_tags = set(e["tbt_out"][idx] if under_tsfr else e["tbt_stop"][idx])
+            tagger_below_tsfr = under_tsfr and any(isinstance(s_, tuple) for s_ in path[path.index("TSFR"):])
+            if not tagger_below_tsfr and set(c["tags"]) != want_tags:
                 vs.append(V("test-by-test", "tags", "tags %r, expected %r (path %r)" % (sorted(c["tags"]), sorted(want_tags), path)))
             info = e["info"]
             det = c["_details_snap"]
